@@ -68,6 +68,12 @@ class Check:
     def extra_evidence(self, merged):
         return {}
 
+    max_minimise_tests = {"quick": 400, "thorough": 1500}
+
+    def pre_minimize(self, plan, violation):
+        """Optional shortcut: a smaller plan to try before generic minimisation (must be re-validated)."""
+        return None
+
 
 # ----------------------------------------------------------------------------------------------
 
@@ -294,7 +300,12 @@ def run_check(check, tier, workers=None):
             return (not res["ok"]) and check.signature(res["violation"]) == _sig
 
         try:
-            mplan = minimize(plan, fails, check.reductions, max_tests=400 if tier == "quick" else 1500,
+            short = check.pre_minimize(plan, r["violation"])
+            if short is not None and fails(short):
+                plan = short
+                r = dict(r)
+                r["violation"] = dict(r["violation"], op_index=None)
+            mplan = minimize(plan, fails, check.reductions, max_tests=check.max_minimise_tests[tier],
                              op_index=r["violation"].get("op_index"))
             res = check.run(mplan)
         except Exception:  # noqa: BLE001
